@@ -58,6 +58,7 @@ type Contract struct {
 	Extern     bool
 	Lemma      bool
 	NoFrame    bool
+	Uses       []ast.Expr
 	Line       string
 }
 
@@ -177,6 +178,8 @@ func (c *Ctx) parseContracts(p *packages.Package) error {
 					} else {
 						c.uninterp[p.PkgPath+"."+rest] = true
 					}
+				case "recursive":
+					c.recursive[p.PkgPath+"."+rest] = true
 				case "guarded_by":
 					// guarded_by Type.mutex: f1, f2
 					parts := strings.SplitN(rest, ":", 2)
@@ -289,6 +292,13 @@ func (c *Ctx) parseContracts(p *packages.Package) error {
 						default:
 							return fmt.Errorf("%s: bad loop clause kind %s", where, fields[2])
 						}
+					case "use":
+						x, err := parser.ParseExpr(desugar(rest))
+						if err != nil {
+							return fmt.Errorf("%s: use: %v", where, err)
+						}
+						cur.Uses = append(cur.Uses, x)
+						lastClause = nil
 					case "trusted":
 						cur.Trusted = true
 					case "inline":
